@@ -282,8 +282,11 @@ func judgeGet(q *getReq, useQuery bool) (why, cls string) {
 		}
 	case method == "h":
 		if q.Cancelled {
-			if q.Status != 500 {
-				return "the request's context ended while its handler was held: want 500", "wrong-status"
+			// the HTTP request's context ended while the handler was held: the call
+			// may be abandoned (a failure: 500) or completed regardless (200 with
+			// that handler's own result); the property names no third outcome
+			if q.Status != 500 && !(q.Status == 200 && compactJSON(q.Body) == fmt.Sprintf(`{"tag":%q}`, q.Tag)) {
+				return "the request's context ended while its handler was held: want 500, or 200 with the handler's own result", "wrong-status"
 			}
 		} else if q.Status != 200 || compactJSON(q.Body) != fmt.Sprintf(`{"tag":%q}`, q.Tag) {
 			return "want 200 with the handler's result", "wrong-status"
